@@ -5,12 +5,15 @@ use crate::rng::Rng;
 use crate::scenario::{Scenario, Stats, Tier, Violation};
 use crate::world::{self, CutCfg, World};
 
+pub mod c03;
 pub mod c06;
 pub mod c10;
+pub mod c11;
+pub mod c12;
 pub mod c15;
 pub mod c18;
 
-pub const CLAIMED: [&str; 4] = ["C06", "C10", "C15", "C18"];
+pub const CLAIMED: [&str; 7] = ["C03", "C06", "C10", "C11", "C12", "C15", "C18"];
 
 /// Draw a program and cut it into a world. Returns (world, generator cfg, cut cfg, lines).
 pub fn draw_world(r: &mut Rng, force: impl FnOnce(&mut GenCfg, &mut CutCfg)) -> (World, GenCfg, CutCfg, Vec<String>) {
@@ -26,6 +29,9 @@ pub fn generate(prop: &str, seed: u64, tier: Tier, run_index: u64) -> Scenario {
     let mut r = Rng::new(seed);
     match prop {
         "C06" => c06::generate(&mut r, tier, run_index),
+        "C03" => c03::generate(&mut r, tier),
+        "C11" => c11::generate(&mut r, tier),
+        "C12" => c12::generate(&mut r, tier),
         "C10" => c10::generate(&mut r, tier),
         "C18" => c18::generate(&mut r, tier),
         "C15" => c15::generate(&mut r, tier),
@@ -36,6 +42,9 @@ pub fn generate(prop: &str, seed: u64, tier: Tier, run_index: u64) -> Scenario {
 pub fn check(scn: &Scenario, stats: &mut Stats) -> Vec<Violation> {
     match scn.property.as_str() {
         "C06" => c06::check(scn, stats),
+        "C03" => c03::check(scn, stats),
+        "C11" => c11::check(scn, stats),
+        "C12" => c12::check(scn, stats),
         "C10" => c10::check(scn, stats),
         "C18" => c18::check(scn, stats),
         "C15" => c15::check(scn, stats),
@@ -71,6 +80,9 @@ pub fn rule(prop: &str) -> &'static str {
         "C10" => "cases = worlds (generated program cut into an include tree) x entropy seeds (hash/UUID schedules); a world is non-trivial iff it produced at least one diagnostic and at least one reach probe fired on it (exit choice / functions() order / pre-sort order differed across its schedules, or it has a multi-label function, or it is multi-file); distinct = by content hash of the world",
         "C18" => "cases = worlds x the 16 combinations of --json/--compact/--no-color/--all-files under one shared entropy seed, plus the library call RVParser::run; a world is non-trivial iff it produced at least one diagnostic (so there is something to compare across channels); distinct = by content hash of the world",
         "C15" => "cases = worlds (program cut into an include tree, plus missing-file / self-include / two-cycle / included-twice shapes) x reader personality x reader fault plan (kind x import index) in process, and x file-system fault plan through the real CLI; each compared with the same analyzer on the pasted single file; a world is non-trivial iff at least one include directive was met and at least one diagnostic was produced; distinct = by content hash of the world",
+        "C03" => "cases = generated programs (mostly in the class 'every path ends in ret or an exit ecall') x entropy seeds; on every schedule's finished graph: inverse relations, every edge explained, and against the harness's own reference edge model every execution-possible transfer present and no reachable line reported unreachable; a world is non-trivial iff the reference model applies and reaches more than three instructions (or, outside the model's class, the graph has more than four nodes); distinct = by content hash",
+        "C11" => "cases = generated programs rich in several-labels-per-entry, interleaved bodies, shared tails, fall-through, recursion, callers in dead code, 1-3 returns x entropy seeds; F1-F4 checked on every schedule's graph with an independent traversal; non-trivial iff the graph has at least one function; distinct = by content hash",
+        "C12" => "cases = generated programs x entropy seeds x generated histories (1-8 extra runs of AvailableValuePass / EcallTerminationPass / LivenessPass / run_diagnostics on the finished graph), plus a second analysis of the same parsed nodes on one thread; non-trivial iff the graph has a back edge or a function; distinct = by content hash",
         "C06" => "cases = worlds x content faults (torn/lost/replayed/interleaved writes, bit flips, byte substitutions, CRLF/CR, NUL, BOM, invalid UTF-8, size multiplier) x include-graph shapes (self-include, cycles, missing file, directory / dangling symlink / symlink loop in place of a file) x reader fault plan (kind x import index, enumerated from the run index) in process under three reader personalities, and x system-call fault plan (failing n-th open/read/realpath, short reads, EINTR, TOCTOU redirect of the printer's re-open; enumerated from the run index) x output modes x build profile through the real CLI; a world is non-trivial iff at least one fault (content, reader, file-system shape or system-call) was applied to it or fired; distinct = by content hash of the world",
         _ => "",
     }
